@@ -93,7 +93,7 @@ func (ts *TimestampTZ) MarshalJSON() ([]byte, error) {
 //   - 2006-01-02T15:04:05.999999999Z07:00
 //   - 2006-01-02T15:04:05.999999999Z07
 func (ts *TimestampTZ) UnmarshalJSON(data []byte) error {
-	str := data[1 : len(data)-1] // Unquote
+	str := unquote(data)
 
 	// Figure out which TZ format we need.
 	var format string
@@ -111,7 +111,7 @@ func (ts *TimestampTZ) UnmarshalJSON(data []byte) error {
 		format = timestampTZHourFormat
 	}
 
-	tim, err := time.Parse(format, string(str))
+	tim, err := time.Parse(format, str)
 	if err != nil {
 		return fmt.Errorf("%w: Cannot parse %s as %q", ErrSQLType, data, format)
 	}
